@@ -1,4 +1,4 @@
-//@unit sm_config  props=C08  min_verified=3
+//@unit sm_config  props=C08,C15,C09  min_verified=6
 // C08: SubDeviceRef::write_sm_config (src/subdevice/configuration.rs) extracted whole, with RegisterAddress::sync_manager and
 // PdoDirection::filter_terms: WHAT is written to WHICH sync-manager register of WHICH device when a process-data sync manager is
 // set up - start address and control byte as the EEPROM describes them, the byte length the caller computed, enabled only if the
@@ -82,8 +82,126 @@ impl PdoDirection {
 @*/
 }
 
-pub struct SubDeviceRef<'a> { pub maindevice: &'a MainDevice, pub configured_address: u16 }
+// ---- mailbox configuration (configure_mailbox_sms / configure_mailboxes) ----
+pub assume_specification[ <SyncManagerType as PartialEq>::eq ](a: &SyncManagerType, b: &SyncManagerType) -> (r: bool)
+    ensures r == (*a == *b);
+impl SyncManager {
+/*@fn file=src/eeprom/types.rs impl="impl SyncManager" name=usage_type props=C15
+    ensures
+        self.usage_type != SyncManagerType::Unknown ==> r == self.usage_type,
+        // an EEPROM that leaves the usage byte empty: recovered from mode and direction
+        self.usage_type == SyncManagerType::Unknown ==> r == (match (self.control.operation_mode, self.control.direction) {
+            (OperationMode::Normal, Direction::MasterRead) => SyncManagerType::ProcessDataRead,
+            (OperationMode::Normal, Direction::MasterWrite) => SyncManagerType::ProcessDataWrite,
+            (OperationMode::Mailbox, Direction::MasterRead) => SyncManagerType::MailboxRead,
+            (OperationMode::Mailbox, Direction::MasterWrite) => SyncManagerType::MailboxWrite,
+        }),
+@*/
+}
+/// bitflags stand-ins (src/eeprom/types.rs): MailboxProtocols (COE = 0x04), CoeDetails (ENABLE_COMPLETE_ACCESS = 0x20)
+#[derive(Clone, Copy, PartialEq, Eq)]
+pub struct MailboxProtocols { pub bits: u8 }
+impl MailboxProtocols {
+    pub const COE: MailboxProtocols = MailboxProtocols { bits: 0x04 };
+    #[verifier::external_body]
+    pub fn contains(&self, other: MailboxProtocols) -> (r: bool) ensures r == ((self.bits & other.bits) == other.bits) { unimplemented!() }
+    #[verifier::external_body]
+    pub fn is_empty(&self) -> (r: bool) ensures r == (self.bits == 0) { unimplemented!() }
+}
+#[derive(Clone, Copy, PartialEq, Eq)]
+pub struct CoeDetails { pub bits: u8 }
+impl CoeDetails {
+    pub const ENABLE_COMPLETE_ACCESS: CoeDetails = CoeDetails { bits: 0x20 };
+    #[verifier::external_body]
+    pub fn contains(&self, other: CoeDetails) -> (r: bool) ensures r == ((self.bits & other.bits) == other.bits) { unimplemented!() }
+}
+/*@type file=src/eeprom/types.rs name=DefaultMailbox derive="Clone, Copy, PartialEq, Eq" @*/
+impl DefaultMailbox {
+/*@fn file=src/eeprom/types.rs impl="impl DefaultMailbox" name=has_mailbox props=C15
+    ensures r == ((self.supported_protocols.bits != 0 && self.subdevice_receive_size > 0) || self.subdevice_send_size > 0)
+@*/
+}
+impl Default for DefaultMailbox {
+    #[verifier::external_body]
+    fn default() -> (r: Self)
+        ensures r == (DefaultMailbox { subdevice_receive_offset: 0, subdevice_receive_size: 0, subdevice_send_offset: 0, subdevice_send_size: 0, supported_protocols: MailboxProtocols { bits: 0 } })
+    { unimplemented!() }
+}
+/// SiiGeneral as far as it is read here
+#[derive(Clone, Copy)]
+pub struct SiiGeneral { pub coe_details: CoeDetails }
+impl Default for SiiGeneral {
+    #[verifier::external_body]
+    fn default() -> (r: Self) ensures r.coe_details.bits == 0 { unimplemented!() }
+}
+/*@type file=src/subdevice/types.rs name=Mailbox derive="Clone, Copy, PartialEq, Eq, Debug" @*/
+/*@type file=src/subdevice/types.rs name=MailboxConfig derive="Clone, Copy, PartialEq, Eq" @*/
+pub trait IgnoreNoCategory<T> {
+    spec fn ignored(self) -> Result<Option<T>, Error> where Self: Sized;
+    fn ignore_no_category(self) -> (r: Result<Option<T>, Error>) where Self: Sized
+        ensures r == self.ignored();
+}
+impl<T> IgnoreNoCategory<T> for Result<T, Error> {
+    open spec fn ignored(self) -> Result<Option<T>, Error> {
+        match self { Ok(v) => Ok(Some(v)), Err(Error::Eeprom(EepromError::NoCategory)) => Ok(None), Err(e) => Err(e) }
+    }
+/*@fn file=src/error.rs impl="impl<T> IgnoreNoCategory<T> for Result<T, Error>" name=ignore_no_category props=C15
+@*/
+}
+/// "`c` is the default-mailbox block / `g` the general block decoded from the EEPROM of the device at `addr`" (units subdevice_eeprom)
+pub uninterp spec fn mbx_block_of(addr: u16, c: DefaultMailbox) -> bool;
+/// where the mailbox sizes come from: the device's EEPROM block, or all-zero when the EEPROM has none
+pub open spec fn cfg_src(addr: u16, c: DefaultMailbox) -> bool {
+    mbx_block_of(addr, c) || c == (DefaultMailbox { subdevice_receive_offset: 0, subdevice_receive_size: 0, subdevice_send_offset: 0, subdevice_send_size: 0, supported_protocols: MailboxProtocols { bits: 0 } })
+}
+pub struct Eeprom { pub addr: u16 }
+impl Eeprom {
+    #[verifier::external_body]
+    pub async fn mailbox_config(&self) -> (r: Result<DefaultMailbox, Error>) ensures r is Ok ==> mbx_block_of(self.addr, r->Ok_0) { unimplemented!() }
+    #[verifier::external_body]
+    pub async fn general(&self) -> (r: Result<SiiGeneral, Error>) { unimplemented!() }
+}
+/// `slice.iter().enumerate()` (R8)
+pub struct EnumIter<'a, T> { pub s: &'a [T], pub pos: usize }
+pub fn enumerate_slice<'a, T>(s: &'a [T]) -> (r: EnumIter<'a, T>) ensures r.s@ == s@, r.pos == 0 { EnumIter { s, pos: 0 } }
+impl<'a, T> EnumIter<'a, T> {
+    #[verifier::external_body]
+    pub fn next(&mut self) -> (r: Option<(usize, &'a T)>)
+        requires old(self).pos <= old(self).s@.len()
+        ensures
+            final(self).s@ == old(self).s@,
+            old(self).pos >= old(self).s@.len() ==> r is None && final(self).pos == old(self).pos,
+            old(self).pos < old(self).s@.len() ==> r is Some && (r->Some_0).0 == old(self).pos && *((r->Some_0).1) == old(self).s@[old(self).pos as int]
+                && final(self).pos == old(self).pos + 1,
+    { unimplemented!() }
+}
+pub assume_specification<T, F: FnOnce(T) -> bool>[ Option::<T>::is_some_and ](o: Option<T>, f: F) -> (r: bool)
+    requires o is Some ==> f.requires((o->Some_0,)),
+    ensures o is None ==> !r, o is Some ==> f.ensures((o->Some_0,), r);
+
+pub struct SdConfig { pub mailbox: MailboxConfig }
+pub struct SdState { pub config: SdConfig }
+pub struct SubDeviceRef<'a> { pub maindevice: &'a MainDevice, pub configured_address: u16, pub state: SdState }
+/// the last sync manager of each mailbox kind in the list decides (later entries overwrite earlier ones)
+pub open spec fn last_of(sms: Seq<SyncManager>, upto: int, kind: SyncManagerType) -> Option<int>
+    decreases upto
+{
+    if upto <= 0 { None } else if sm_kind(sms[upto - 1]) == kind { Some(upto - 1) } else { last_of(sms, upto - 1, kind) }
+}
+pub open spec fn sm_kind(sm: SyncManager) -> SyncManagerType {
+    if sm.usage_type != SyncManagerType::Unknown { sm.usage_type } else {
+        match (sm.control.operation_mode, sm.control.direction) {
+            (OperationMode::Normal, Direction::MasterRead) => SyncManagerType::ProcessDataRead,
+            (OperationMode::Normal, Direction::MasterWrite) => SyncManagerType::ProcessDataWrite,
+            (OperationMode::Mailbox, Direction::MasterRead) => SyncManagerType::MailboxRead,
+            (OperationMode::Mailbox, Direction::MasterWrite) => SyncManagerType::MailboxWrite,
+        }
+    }
+}
 impl<'a> SubDeviceRef<'a> {
+    pub fn configured_address(&self) -> (r: u16) ensures r == self.configured_address { self.configured_address }
+    #[verifier::external_body]
+    pub fn eeprom(&self) -> (r: Eeprom) ensures r.addr == self.configured_address { unimplemented!() }
 /*@fn file=src/subdevice/mod.rs impl="impl<'maindevice, S> SubDeviceRef<'maindevice, S>" name=write subst="impl Into<u16>=>RegisterAddress" props=C08
     ensures r.command == (Writes::Fpwr { address: self.configured_address, register: register as u16 }), r.wkc == Some(1u16)
 @*/
@@ -102,6 +220,102 @@ impl<'a> SubDeviceRef<'a> {
             // exactly this record went to register 0x0800 + 8 * index of THIS device
             &&& wrote_sm(self.configured_address, (0x0800 + 8 * sync_manager_index) as u16, c)
         }),
+@*/
+}
+
+impl<'a> SubDeviceRef<'a> {
+/*@fn file=src/subdevice/configuration.rs impl="impl<S> SubDeviceRef<'_, S>" name=configure_mailbox_sms subst="sync_managers.iter().enumerate()=>enumerate_slice(sync_managers)@@let mut read_mailbox = None;=>let mut read_mailbox: Option<Mailbox> = None;@@let mut write_mailbox = None;=>let mut write_mailbox: Option<Mailbox> = None;" truncate_casts=1 props=C15,C09 attr="#[verifier::loop_isolation(false)]"
+    requires sync_managers@.len() <= 16
+    ensures
+        final(self).configured_address == old(self).configured_address,
+        // the mailbox record the SDO layer later works with: the READ mailbox is the (last) MailboxRead sync manager of the EEPROM
+        // list - its start address, its index - with the length the device SENDS; the WRITE mailbox the (last) MailboxWrite one
+        // with the length the device RECEIVES; CoE only if announced and there is a non-empty read mailbox
+        r is Ok ==> exists|c: DefaultMailbox| #[trigger] cfg_src(old(self).configured_address, c) && ({
+            let m = final(self).state.config.mailbox;
+            let rd = last_of(sync_managers@, sync_managers@.len() as int, SyncManagerType::MailboxRead);
+            let wr = last_of(sync_managers@, sync_managers@.len() as int, SyncManagerType::MailboxWrite);
+            m == old(self).state.config.mailbox || {
+                &&& (m.read is Some) == (rd is Some)
+                &&& m.read is Some ==> (m.read->Some_0).address == sync_managers@[rd->Some_0].start_addr && (m.read->Some_0).sync_manager == rd->Some_0
+                        && (m.read->Some_0).len == c.subdevice_send_size
+                &&& (m.write is Some) == (wr is Some)
+                &&& m.write is Some ==> (m.write->Some_0).address == sync_managers@[wr->Some_0].start_addr && (m.write->Some_0).sync_manager == wr->Some_0
+                        && (m.write->Some_0).len == c.subdevice_receive_size
+                &&& m.has_coe ==> m.read is Some && (m.read->Some_0).len > 0 && (m.supported_protocols.bits & 0x04) == 0x04
+                &&& m.supported_protocols == c.supported_protocols
+            }
+        }),
+@closure 0 "|| -> (cr: DefaultMailbox)" of=unwrap_or_else
+    ensures cr == (DefaultMailbox { subdevice_receive_offset: 0, subdevice_receive_size: 0, subdevice_send_offset: 0, subdevice_send_size: 0, supported_protocols: MailboxProtocols { bits: 0 } })
+@closure 1 "|| -> (cr: SiiGeneral)" of=unwrap_or_else
+    ensures cr.coe_details.bits == 0
+@closure 0 "|mbox: Mailbox| -> (cr: bool)" of=is_some_and
+    ensures cr == (mbox.len > 0)
+@loop 0
+    invariant
+        __it0.s@ == sync_managers@, __it0.pos <= sync_managers@.len(), self.configured_address == old(self).configured_address,
+        self.state == old(self).state,
+        (read_mailbox is Some) == (last_of(sync_managers@, __it0.pos as int, SyncManagerType::MailboxRead) is Some),
+        read_mailbox is Some ==> ({ let k = last_of(sync_managers@, __it0.pos as int, SyncManagerType::MailboxRead)->Some_0;
+            (read_mailbox->Some_0).address == sync_managers@[k].start_addr && (read_mailbox->Some_0).sync_manager == k && (read_mailbox->Some_0).len == mailbox_config.subdevice_send_size }),
+        (write_mailbox is Some) == (last_of(sync_managers@, __it0.pos as int, SyncManagerType::MailboxWrite) is Some),
+        write_mailbox is Some ==> ({ let k = last_of(sync_managers@, __it0.pos as int, SyncManagerType::MailboxWrite)->Some_0;
+            (write_mailbox->Some_0).address == sync_managers@[k].start_addr && (write_mailbox->Some_0).sync_manager == k && (write_mailbox->Some_0).len == mailbox_config.subdevice_receive_size }),
+    decreases sync_managers@.len() - __it0.pos
+@before "if !mailbox_config.has_mailbox()"
+    proof { assert(cfg_src(self.configured_address, mailbox_config)); }
+@*/
+}
+
+// ---- configure_mailboxes: the INIT -> PRE-OP sequence of one device ----
+/*@type file=src/eeprom/types.rs name=SiiOwner derive="Clone, Copy, PartialEq, Eq, Debug" @*/
+/// ghost log of what this function did to the device, in order
+pub enum Step { Owner(SiiOwner), MailboxSms, PreOpReached }
+pub struct SmList { pub v: Vec<SyncManager> }
+impl core::ops::Deref for SmList {
+    type Target = [SyncManager];
+    #[verifier::external_body]
+    fn deref(&self) -> (r: &[SyncManager]) ensures r@ == self.v@ { unimplemented!() }
+}
+pub struct Eeprom2 { pub addr: u16 }
+impl Eeprom2 {
+    /// unit eeprom_items::sync_managers: at most 8 entries (heapless capacity)
+    #[verifier::external_body]
+    pub async fn sync_managers(&self) -> (r: Result<SmList, Error>) ensures r is Ok ==> (r->Ok_0).v@.len() <= 8 { unimplemented!() }
+}
+pub struct Dev<'a> { pub inner: SubDeviceRef<'a>, pub log: Ghost<Seq<Step>> }
+impl<'a> Dev<'a> {
+    /// units state_wait (set_eeprom_mode, request_subdevice_state extracted whole) and this unit (configure_mailbox_sms)
+    #[verifier::external_body]
+    pub async fn set_eeprom_mode(&mut self, mode: SiiOwner) -> (r: Result<(), Error>)
+        ensures r is Ok ==> final(self).log@ == old(self).log@.push(Step::Owner(mode)), r is Err ==> final(self).log@ == old(self).log@, final(self).inner.configured_address == old(self).inner.configured_address
+    { unimplemented!() }
+    #[verifier::external_body]
+    pub fn eeprom(&self) -> (r: Eeprom2) ensures r.addr == self.inner.configured_address { unimplemented!() }
+    #[verifier::external_body]
+    pub async fn configure_mailbox_sms(&mut self, sync_managers: &[SyncManager]) -> (r: Result<(), Error>)
+        requires sync_managers@.len() <= 16
+        ensures r is Ok ==> final(self).log@ == old(self).log@.push(Step::MailboxSms), r is Err ==> final(self).log@ == old(self).log@, final(self).inner.configured_address == old(self).inner.configured_address
+    { unimplemented!() }
+    #[verifier::external_body]
+    pub async fn request_subdevice_state(&mut self, desired_state: SubDeviceState) -> (r: Result<(), Error>)
+        ensures r is Ok && desired_state == SubDeviceState(0x02) ==> final(self).log@ == old(self).log@.push(Step::PreOpReached), r is Err ==> final(self).log@ == old(self).log@,
+            final(self).inner.configured_address == old(self).inner.configured_address
+    { unimplemented!() }
+}
+#[allow(non_upper_case_globals)]
+impl SubDeviceState {
+    pub const None: SubDeviceState = SubDeviceState(0x00); pub const Init: SubDeviceState = SubDeviceState(0x01); pub const PreOp: SubDeviceState = SubDeviceState(0x02);
+    pub const Bootstrap: SubDeviceState = SubDeviceState(0x03); pub const SafeOp: SubDeviceState = SubDeviceState(0x04); pub const Op: SubDeviceState = SubDeviceState(0x08);
+}
+impl<'a> Dev<'a> {
+/*@fn file=src/subdevice/configuration.rs impl="impl<S> SubDeviceRef<'_, S>" name=configure_mailboxes props=C09,C15,C10
+    requires old(self).log@.len() == 0
+    ensures
+        // Ok => exactly this sequence happened on the device: EEPROM to the MainDevice, the mailbox sync managers written (they must
+        // be configured in INIT), EEPROM to the device's PDI side for the transition, PRE-OP requested AND SEEN, EEPROM back to the MainDevice
+        r is Ok ==> final(self).log@ =~= seq![Step::Owner(SiiOwner::Master), Step::MailboxSms, Step::Owner(SiiOwner::Pdi), Step::PreOpReached, Step::Owner(SiiOwner::Master)],
 @*/
 }
 
